@@ -685,12 +685,14 @@ structure UpstreamLimiter where
   currentSpec : List Schema
 deriving Repr, DecidableEq
 
-/-- the loop body of `syncLocalFlowControls` -/
+/-- `f.flowControls.Load(name)`, else `NewFlowControlCache` (stored by the caller) -/
+def loadOrNew (fcs : List (Str × FlowControlCache)) (name : Str) : FlowControlCache :=
+  match alGet fcs name with
+  | some fc => fc
+  | none => newFlowControlCache
+
 def syncOneSchema (fcs : List (Str × FlowControlCache)) (newSchema : Schema) : M (List (Str × FlowControlCache)) := do
-  let fc := match alGet fcs newSchema.name with
-    | some fc => fc
-    | none => newFlowControlCache
-  let fc' ← localWrapperSync fc newSchema
+  let fc' ← localWrapperSync (loadOrNew fcs newSchema.name) newSchema
   pure (alSet fcs newSchema.name fc')
 
 /-- `upstreamLimiter.Sync` = `syncLocalFlowControls` (`Semantic.DeepEqual` treats nil and empty slices alike) -/
